@@ -210,7 +210,11 @@ def gen_case(rng: random.Random, pid: str, uid: str) -> dict:
         # a state that hands over with next_state_now() EVERY time it runs, for as long as the case runs (the scripts repeat)
         a_, b_ = rng.sample(names, 2)
         script[a_] = [["now", b_, False]] * len(script[a_])
-        script[b_] = [None] * len(script[b_])
+        script[b_] = ([["next", a_, False]] if marathon else [None]) * len(script[b_])     # (marathon: ... and comes back, forever)
+        if marathon:
+            for nm_ in names:
+                if nm_ not in (a_, b_):
+                    script[nm_] = [["next", a_, False]] * len(script[nm_])          # wherever the machine starts, it ends up in the cycle
         script["__cyclic__"] = True
     always_disable = False
     if auto and rng.random() < 0.2:
@@ -974,6 +978,8 @@ class Driver:
                         pre += [["engage", None, False, False]] * 60        # many callers ask for the machine in one iteration
                 r = rng.random()
                 p_stop = 0.06 if pid == "C04" else 0.02
+                if case.get("marathon"):
+                    p_stop = 0.0003          # (hardly ever stopped from outside)
                 if r < p_stop:
                     pre.insert(rng.randrange(len(pre) + 1), [rng.choice(["done", "done", "on_disable"])])
                 if timed and rng.random() < (0.06 if pid == "C02" else 0.02):
